@@ -83,8 +83,8 @@ def Repo.init : Repo :=
 
 def Repo.size (r : Repo) : Nat := r.parents.length
 def Repo.parentsOf (r : Repo) (c : Nat) : List Nat := r.parents.getD c []
-/-- `Index::is_ancestor(a, b)` -/
-def Repo.isAnc (r : Repo) (a b : Nat) : Bool := (r.ancs.getD b []).contains a
+/-- `Index::is_ancestor(a, b)`: "`a` is an ancestor of `b`, or `a` equals `b`" -/
+def Repo.isAnc (r : Repo) (a b : Nat) : Bool := a == b || (r.ancs.getD b []).contains a
 def Repo.isDisc (r : Repo) (c : Nat) : Bool := r.disc.getD c false
 def Repo.keys (r : Repo) : List Nat := r.mapping.map (·.1)
 /-- `visible_heads().ancestors()` contains `c` -/
@@ -292,8 +292,9 @@ def updateHeads (r : Repo) : Repo :=
   let heads := r.keys.foldl (fun hs k => setRemove k hs) r.heads
   normalizeHeads { r with heads := setUnion heads toAdd, normalized := false }
 
-/-- `rebase_descendants()` -/
-def rebaseDescendants (r : Repo) : Repo :=
+/-- `transform_commits` up to (excluding) `update_heads`: rebase the descendants, then
+`update_all_references` (bookmarks, working copies) -/
+def rebaseRefs (r : Repo) : Repo :=
   let tv := toVisit r
   let base := r.size
   let r := { r with parents := r.parents ++ tv.map (fun _ => []),
@@ -301,8 +302,11 @@ def rebaseDescendants (r : Repo) : Repo :=
                     disc := r.disc ++ tv.map (fun _ => false) }
   let r := rebaseLoop base tv (tv.length + 1) r tv
   let r := updateLocalBookmarks r
-  let r := updateWcCommits r
-  let r := updateHeads r
+  updateWcCommits r
+
+/-- `rebase_descendants()` -/
+def rebaseDescendants (r : Repo) : Repo :=
+  let r := updateHeads (rebaseRefs r)
   { r with mapping := [] }
 
 /-! ### `Transaction::commit` -/
